@@ -75,22 +75,24 @@ def run(tier, seed):
     rows = covering.covering_array(PARAMS, t=2 if quick else 3, rng=random.Random(seed))
     if quick:
         rows = rows[:16] if len(rows) > 16 else rows
-    base = ctrace.gather_programs(rng, 12 if quick else 60, corpus=('ok',) if quick else ('example', 'ok'),
+    base = ctrace.gather_programs(rng, 12 if quick else 36, corpus=('ok',) if quick else ('example', 'ok'),
                                   gen_kw=dict(maxdepth=2, maxstmts=3), base_args=())
     if quick:
         base = [b for i, b in enumerate(base) if i % 3 == 0 or b[0].startswith('gen:') or b[0].startswith('corpus/')]
-    for i in range(3 if quick else 20):
+    for i in range(3 if quick else 12):
         sd = rng.randrange(1 << 30)
         base.append(('range:%d' % sd, genprog.gen_range_program(sd)[1], []))
     items = []
-    for name, src, args in base:
-        for k, row in enumerate(rows):
+    for bi, (name, src, args) in enumerate(base):
+        # quick: all 16 rows; thorough: every row of the 3-way array is used by some program, each program under 40 of them
+        use = list(enumerate(rows)) if quick or len(rows) <= 40 else [((bi * 13 + k) % len(rows), rows[(bi * 13 + k) % len(rows)]) for k in range(40)]
+        for k, row in use:
             items.append(('%s#row%d' % (name, k), src, list(args) + row_args(row)))
     # yield programs at -O3 (yields merged onto consuming transitions): pointer mode is fixed by yield support, the other
     # representation options still vary; fed whole and one byte per call, so every yield is re-entered at a chunk end
     yrows = [r for r in covering.covering_array({k: v for k, v in PARAMS.items() if k != 'indirect'}, t=2, rng=random.Random(seed + 1))]
     yrows = yrows[:6] if quick else yrows
-    for i in range(5 if quick else 40):
+    for i in range(5 if quick else 24):
         sd = rng.randrange(1 << 30)
         if i % 2:
             src = genprog.gen_case_program(sd, yield_mode=True)[1]
